@@ -438,6 +438,11 @@ class Process(Event[V]):
             env.active_process = None
             self.succeed(err.args[0] if err.args else None)
             return
+        except BaseException as err:
+            # the process failed before ever waiting for an event
+            env.active_process = None
+            self.fail(err)
+            return
         env.active_process = None
         while True:
             event = await self._wait_interruptible(event, interrupts)
